@@ -45,11 +45,16 @@ abbrev Names := List (String × Bytes)
 
 def placeholder (name : String) : Bytes := ascii ("eph://" ++ name)
 
-def nodeOps (names : Names) (now : Int) : NodeOps DNode :=
+/-- `foreign`: names of manifests issued by another node (`mk`): same content, other key.  Since
+    `Node::manifest_keeps_held_chunk_readable`, registering such a manifest for a chunk the daemon holds is
+    refused (`ingest_manifest` returns false); the daemon's own manifests are accepted. -/
+def nodeOps (names : Names) (foreign : List String) (now : Int) : NodeOps DNode :=
   { decodeManifest := fun uri => (names.find? fun p => placeholder p.1 == uri).map (·.2),
     ingest := fun n uri =>
       match (names.find? fun p => placeholder p.1 == uri) with
-      | some p => some { n with manifests := if n.manifests.contains p.2 then n.manifests else n.manifests ++ [p.2] }
+      | some p =>
+        if foreign.contains p.1 && n.chunks.any (fun c => c.payload == p.2) then none
+        else some { n with manifests := if n.manifests.contains p.2 then n.manifests else n.manifests ++ [p.2] }
       | none => none,
     fetch := fun n key => (n.chunks.find? fun c => c.payload == key).map (·.payload),
     store := fun n payload ttl _ => n.store now payload ttl,
@@ -73,6 +78,7 @@ structure St where
   now : Int := 1000000000000
   srv : ServerState DNode := ServerState.init {}
   names : Names := []
+  foreign : List String := []
   accepted : Nat := 0
   /-- effects part of the previous `req` line (implementation's if available) -/
   lastEffects : Option String := none
@@ -243,7 +249,7 @@ def stepReq (mode : Mode) (st : St) (addr mode' headSpec bodyHex : String) (impl
   let body := bytesOr bodyHex
   -- `early`: the harness withholds the body altogether (head only, then half-close)
   let input := if mode' == "early" then head else head ++ body
-  let ops := nodeOps st.names st.now
+  let ops := nodeOps st.names st.foreign st.now
   let (srv', reply) := handleClient sha256 ops st.cfg st.now (ascii addr) st.srv input
   let (names', accepted') := match reply with
     | some r => (match r.stored with
@@ -355,7 +361,7 @@ def clientRequest (_st : St) (tok cmd : String) (args : List String) : Request :
 
 def stepCli (mode : Mode) (st : St) (tok cmd sel : String) (args : List String) (impl : Option String) : St × String × String :=
   let req := clientRequest st tok cmd args
-  let (srv', reply) := handleRequest sha256 (nodeOps st.names st.now) st.cfg st.now (ascii "1") st.srv req
+  let (srv', reply) := handleRequest sha256 (nodeOps st.names st.foreign st.now) st.cfg st.now (ascii "1") st.srv req
   let st1 := { st with srv := srv', lastEffects := none }
   let produced := produce st1 reply
   let out := fmtClient (throughWire st1 produced) sel
@@ -379,7 +385,7 @@ def fmtListing (lines : List Bytes) (chunks : Nat) : String :=
 
 def stepList (mode : Mode) (st : St) (tok : String) (impl : Option String) : St × String × String :=
   let req := clientRequest st tok "LIST" []
-  let (srv', reply) := handleRequest sha256 (nodeOps st.names st.now) st.cfg st.now (ascii "1") st.srv req
+  let (srv', reply) := handleRequest sha256 (nodeOps st.names st.foreign st.now) st.cfg st.now (ascii "1") st.srv req
   let st1 := { st with srv := srv', lastEffects := none }
   let entries := chunkEntries st1
   let out := fmtListing (printList (throughWire st1 (produce st1 reply))) entries.length
@@ -429,7 +435,8 @@ def step (mode : Mode) (st : St) (tok : List String) (_line : String) (impl : Op
     match n.toInt? with
     | some d => ({ st with now := st.now + d }, "ok", "ok")
     | none => (st, "bad-op", "ok")
-  | ["mk", name, payload, _ttl] => ({ st with names := st.names ++ [(name, bytesOr payload)] }, "ok", "ok")
+  | ["mk", name, payload, _ttl] =>
+    ({ st with names := st.names ++ [(name, bytesOr payload)], foreign := st.foreign ++ [name] }, "ok", "ok")
   | "put" :: name :: payload :: ttl :: _ =>
     let p := bytesOr payload
     let t : Int := (ttl.toInt?).getD 0
